@@ -41,6 +41,9 @@ PROBES = ['same_object_reused', 'healthy_big_dat', 'healthy_lis_gt100_prs', 'hea
 EXPECTED = {'dlis': 'RP66V1', 'dlis_phys': 'RP66V1', 'bit': 'BIT', 'dat': 'DAT'}
 FAMILIES = ['dlis', 'dlis_phys', 'lis', 'lis', 'las', 'bit', 'dat', 'random', 'foreign']
 
+#: processor time one identification may use (the unchanged library needs milliseconds): bounds loops inside C code
+CPU_QUOTA_S = 5.0
+
 bft = None
 
 
@@ -152,9 +155,20 @@ def generate(seed, tier):
             subs = rng.sample(subs, 70)
         for f in subs:
             fault_sets.append([f])
+        # --- enumerated for text formats: a key token written with far more characters than usual (a version printed with thirty
+        # decimals, a very long section name), alone, then cut off right behind it, then with the separator that follows it gone
+        for pos, ln, _ in text_fields:
+            total = rng.pick([26, 32, 40, 64, 200])
+            st = ['stretch', pos, ln, total]
+            fault_sets.append([st])
+            fault_sets.append([st, ['truncate', pos + total]])
+            eol = by.find(b'\n', pos + ln)
+            sep = by.find(b':', pos + ln, eol if eol >= 0 else n)
+            if sep >= 0:
+                fault_sets.append([st, ['overwrite', sep + total - ln, '20']])
         # --- seeded other kinds, sometimes two at once
         for _ in range(24):
-            fs = [damage.gen_fault(rng, n, fields, kinds=['zero_block', 'overwrite', 'dup_block', 'swap_blocks', 'append', 'empty', 'foreign', 'header_damage'])]
+            fs = [damage.gen_fault(rng, n, fields, kinds=['zero_block', 'overwrite', 'dup_block', 'swap_blocks', 'append', 'empty', 'foreign', 'header_damage', 'value_damage'])]
             if rng.chance(0.2):
                 fs.append(damage.gen_fault(rng, n, fields, kinds=['truncate', 'bitflip', 'zero_block']))
             fault_sets.append(fs)
@@ -185,7 +199,7 @@ def identify(by, budget, via_path=None, shared=None):
         with open(via_path, 'wb') as f:
             f.write(by)
         try:
-            with StepBudget(budget) as sb:
+            with StepBudget(budget, cpu_s=CPU_QUOTA_S) as sb:
                 r = bft.binary_file_type_from_path(via_path)
             return 'ok', r, sb.count, None
         except BudgetExceeded:
@@ -197,7 +211,7 @@ def identify(by, budget, via_path=None, shared=None):
         f.set_content(by)
     else:
         f = SimFile(by, EventClock(), name='x', log=False)
-    sb = StepBudget(budget)
+    sb = StepBudget(budget, cpu_s=CPU_QUOTA_S)
     try:
         with sb:
             r = bft.binary_file_type(f)
@@ -257,7 +271,7 @@ def execute(scenario):
                               exc=type(detail).__name__, where=where, **facts)
                 continue
             if outcome == 'budget':
-                res.violation('identify-no-progress', f'fault set {k} {fs} on a {fam} file of {len(by)} bytes: more than {budget} steps', **facts)
+                res.violation('identify-no-progress', f'fault set {k} {fs} on a {fam} file of {len(by)} bytes: more than {budget} steps or {CPU_QUOTA_S}s of processor time', **facts)
                 continue
             max_frac = max(max_frac, steps / budget)
             if steps > budget // 10:
